@@ -33,7 +33,8 @@ structure Inv (s : State) : Prop where
   adjP  : s.sim.phase = .inAdjust ↔ adjPc s.ipc = true
   nc    : s.needCopy = true ↔ ncHigh s.spc = true
   snapS : s.spc = .serialising → ∃ m, s.snap = some m ∧ m.steps = s.sim.steps ∧ m.phase ≠ .inStep
-  lockC : s.ilock = true → critI s.ipc = true
+  lockC : s.ilock = true → (critI s.ipc = true ∨ s.ipc = .shotWait)
+  shotC : s.ipc = .shotWait → s.ilock = true
   upC   : critI s.ipc = true → s.ilock = false → s.srvUp = false
   downS : s.srvUp = false → s.spc = .accepting
   noUB  : s.ub = false
@@ -57,6 +58,7 @@ def grp : Ev → Nat
   | .iEnter | .iChkBegin | .iChkSync | .iChkEnd _ => 0
   | .iSeeSrv _ | .iSpin | .iSeeNC0 | .iLock | .iSetFlag => 1
   | .iStepBegin | .iStepEnd | .iUnlock | .iSkipUnlock | .iClrFlag => 2
+  | .iShotUnlock | .iShotLock | .sStatic | .sDrop => 5
   | .iEpiSync | .iLeave | .xStart | .sReq | .xStop => 3
   | .sSetNC | .sLock | .sSerBegin | .sSerEnd => 4
   | .sClrNC | .sUnlock | .sSent => 5
@@ -71,37 +73,37 @@ macro "inv_case" : tactic => `(tactic|
 theorem step_inv_g0 {s s' : State} {e : Ev} (hg : grp e = 0) (h : Inv s)
     (hs : step s e = some s') (hr : s'.racy = false) : Inv s' := by
   obtain ⟨ipc, spc, owner, nc, ⟨steps, adj, phase⟩, snap, served, up, il, rc, ub, me⟩ := s
-  obtain ⟨h1, h2, h3, h4, h5, h6, h7, h8, h9, h10, h11, h12, h13, h14⟩ := h
+  obtain ⟨h1, h2, h3, h4, h5, h6, h7, h8, h9, h10, h11, h12, h13, h14, h15⟩ := h
   cases e <;> simp only [grp] at hg <;> (try omega) <;> inv_case
 
 theorem step_inv_g1 {s s' : State} {e : Ev} (hg : grp e = 1) (h : Inv s)
     (hs : step s e = some s') (hr : s'.racy = false) : Inv s' := by
   obtain ⟨ipc, spc, owner, nc, ⟨steps, adj, phase⟩, snap, served, up, il, rc, ub, me⟩ := s
-  obtain ⟨h1, h2, h3, h4, h5, h6, h7, h8, h9, h10, h11, h12, h13, h14⟩ := h
+  obtain ⟨h1, h2, h3, h4, h5, h6, h7, h8, h9, h10, h11, h12, h13, h14, h15⟩ := h
   cases e <;> simp only [grp] at hg <;> (try omega) <;> inv_case
 
 theorem step_inv_g2 {s s' : State} {e : Ev} (hg : grp e = 2) (h : Inv s)
     (hs : step s e = some s') (hr : s'.racy = false) : Inv s' := by
   obtain ⟨ipc, spc, owner, nc, ⟨steps, adj, phase⟩, snap, served, up, il, rc, ub, me⟩ := s
-  obtain ⟨h1, h2, h3, h4, h5, h6, h7, h8, h9, h10, h11, h12, h13, h14⟩ := h
+  obtain ⟨h1, h2, h3, h4, h5, h6, h7, h8, h9, h10, h11, h12, h13, h14, h15⟩ := h
   cases e <;> simp only [grp] at hg <;> (try omega) <;> inv_case
 
 theorem step_inv_g3 {s s' : State} {e : Ev} (hg : grp e = 3) (h : Inv s)
     (hs : step s e = some s') (hr : s'.racy = false) : Inv s' := by
   obtain ⟨ipc, spc, owner, nc, ⟨steps, adj, phase⟩, snap, served, up, il, rc, ub, me⟩ := s
-  obtain ⟨h1, h2, h3, h4, h5, h6, h7, h8, h9, h10, h11, h12, h13, h14⟩ := h
+  obtain ⟨h1, h2, h3, h4, h5, h6, h7, h8, h9, h10, h11, h12, h13, h14, h15⟩ := h
   cases e <;> simp only [grp] at hg <;> (try omega) <;> inv_case <;> (try (cases ipc <;> simp_all))
 
 theorem step_inv_g4 {s s' : State} {e : Ev} (hg : grp e = 4) (h : Inv s)
     (hs : step s e = some s') (hr : s'.racy = false) : Inv s' := by
   obtain ⟨ipc, spc, owner, nc, ⟨steps, adj, phase⟩, snap, served, up, il, rc, ub, me⟩ := s
-  obtain ⟨h1, h2, h3, h4, h5, h6, h7, h8, h9, h10, h11, h12, h13, h14⟩ := h
+  obtain ⟨h1, h2, h3, h4, h5, h6, h7, h8, h9, h10, h11, h12, h13, h14, h15⟩ := h
   cases e <;> simp only [grp] at hg <;> (try omega) <;> inv_case
 
 theorem step_inv_g5 {s s' : State} {e : Ev} (hg : grp e = 5) (h : Inv s)
     (hs : step s e = some s') (hr : s'.racy = false) : Inv s' := by
   obtain ⟨ipc, spc, owner, nc, ⟨steps, adj, phase⟩, snap, served, up, il, rc, ub, me⟩ := s
-  obtain ⟨h1, h2, h3, h4, h5, h6, h7, h8, h9, h10, h11, h12, h13, h14⟩ := h
+  obtain ⟨h1, h2, h3, h4, h5, h6, h7, h8, h9, h10, h11, h12, h13, h14, h15⟩ := h
   cases e <;> simp only [grp] at hg <;> (try omega) <;> inv_case
 
 theorem grp_lt (e : Ev) : grp e < 6 := by cases e <;> simp [grp]
@@ -216,7 +218,7 @@ structure Quiet (s : State) : Prop where
 theorem step_quiet {s s' : State} {e : Ev} (h : Inv s) (q : Quiet s) (hs : step s e = some s')
     (ha : e.isAdjust = false) (he : e ≠ .sSerEnd) : Quiet s' := by
   obtain ⟨ipc, spc, owner, nc, ⟨steps, adj, phase⟩, snap, served, up, il, rc, ub, me⟩ := s
-  obtain ⟨h1, h2, h3, h4, h5, h6, h7, h8, h9, h10, h11, h12, h13, h14⟩ := h
+  obtain ⟨h1, h2, h3, h4, h5, h6, h7, h8, h9, h10, h11, h12, h13, h14, h15⟩ := h
   obtain ⟨q1, q2, q3⟩ := q
   cases e <;> simp only [step, setPhase] at hs <;> (repeat' split at hs) <;>
     simp only [Option.some.injEq, reduceCtorEq] at hs <;> subst hs <;>
